@@ -129,6 +129,17 @@ pub fn check<I: Inputs>(vt: &'static Vt<I>, ctx: &Ctx) -> DeclReport {
     };
     drive(ctx, &info, &mut rep, sys, Some(I::strategy(m)), ctx.n_random(2000, 100_000), &eval);
 
+    // thorough tier: ALL 2^32 bit patterns for f32 declarations (DESIGN §5)
+    if ctx.tier == Tier::Thorough && ctx.case.is_none() {
+        let any_vt: &dyn std::any::Any = vt;
+        if let Some(vt32) = any_vt.downcast_ref::<Vt<f32>>() {
+            let skip = vt32.tags.iter().any(|t| t.starts_with("float-arb") || t.starts_with("float-single-trait") || t.starts_with("float-default"));
+            if !skip {
+                exhaustive_f32(vt32, &mut rep);
+            }
+        }
+    }
+
     // compile-time evaluation (const_fn): results computed by rustc equal run time and the model
     if ctx.case.is_none() {
         if let Some(ce) = vt.const_evals {
@@ -165,4 +176,65 @@ pub fn check<I: Inputs>(vt: &'static Vt<I>, ctx: &Ctx) -> DeclReport {
         }
     }
     rep
+}
+
+
+/// every f32 bit pattern through the constructor, compared with the reference model
+fn exhaustive_f32(vt: &'static Vt<f32>, rep: &mut DeclReport) {
+    let m = vt.model;
+    let mut evaluated: u64 = 0;
+    let mut nontrivial: u64 = 0;
+    let mut first_fail: Option<(f32, String, String, String)> = None;
+    let mut fails: u64 = 0;
+    for bits in 0..=u32::MAX {
+        let raw = f32::from_bits(bits);
+        let sanitized = model::sanitize(m, raw);
+        let expected = model::validate(m, &sanitized).map(|_| sanitized);
+        let actual = no_panic(|| (vt.ctor)(raw));
+        evaluated += 1;
+        if expected.is_err() || sanitized.to_bits() != bits {
+            nontrivial += 1;
+        }
+        let ok = match (&expected, &actual) {
+            (Ok(e), Ok(Ok(a))) => e.to_bits() == a.to_bits(),
+            (Err(_), Ok(Err(_))) => true,
+            _ => false,
+        };
+        if !ok {
+            fails += 1;
+            let better = first_fail.as_ref().map_or(true, |(r, ..)| InnerTy::weight(&raw) < InnerTy::weight(r));
+            if better {
+                let what = match (&expected, &actual) {
+                    (_, Err(_)) => "panic",
+                    (Ok(_), Ok(Ok(_))) => "wrong-value",
+                    (Ok(_), Ok(Err(_))) => "rejected-valid",
+                    _ => "accepted-invalid",
+                };
+                first_fail = Some((raw, what.to_string(), show_res(&expected), format!("{:?}", actual.as_ref().map(show_res))));
+            }
+        }
+    }
+    rep.evaluations += evaluated;
+    rep.nontrivial += nontrivial;
+    rep.class_n("exhaustive-f32", evaluated);
+    rep.exhaustive = true;
+    rep.notes.push(format!("all 2^32 f32 bit patterns evaluated ({fails} failing)"));
+    if let Some((raw, what, e, a)) = first_fail {
+        let mut w = Default::default();
+        rep.viol(
+            Viol {
+                prop: "C01".into(),
+                decl_id: vt.id.into(),
+                type_name: vt.type_name.into(),
+                decl: vt.decl.into(),
+                signature: format!("C01|f32|try_new/new|{what}|sans={}|vals={}|exhaustive", san_names(m), val_names(m)),
+                case: InnerTy::to_json(&raw),
+                expected: e,
+                actual: a,
+                shrunk: "enumeration-minimum".into(),
+            },
+            InnerTy::weight(&raw),
+            &mut w,
+        );
+    }
 }
